@@ -1023,6 +1023,8 @@ impl<T: ArrayValue> Array<T> {
                 )));
             }
             let n = index[0];
+            // Map keys belong to the rows there were
+            self.meta.take_map_keys();
             // Validate the size of the result before allocating it
             let new_row_count = self.shape[0] + n.unsigned_abs();
             validate_size::<T>([new_row_count].into_iter().chain(row_shape.iter().copied()), env)?;
